@@ -25,6 +25,20 @@ prop("C01", level="exploration",
      assumptions=["independent RFC 8259 recogniser drivers/common/rfc8259.hpp", "strict structural compare drivers/common/jvalue.hpp"],
      stages=[dict(name="roundtrip", driver="c01_roundtrip", flagset="asan", quick=250000, thorough=6000000)])
 
+prop("C02", level="exploration",
+     level_text="In-process monitor judged by an independent RFC 8259 recogniser/evaluator written from the ABNF (drivers/common/rfc8259.hpp; options: depth limit, comments, trailing comma). (1) Bounded-exhaustive: EVERY string of "
+                "length <= 5 (thorough: 6) over a 25-symbol token alphabet ({ } [ ] , : \" \\ / u 0 1 9 - + . e E a SP LF ' true false null) is parsed under four configurations (strict, comments, trailing comma, depth limit 2): "
+                "accept <=> the judge accepts. (2) Generative/mutational: documents written by a foreign writer with random whitespace, escape style, number spelling (-0, 0e0, 1E+2, 19/20/21-digit integers, 400-digit decimals, "
+                "round-to-even midpoints), mutated variants and the JSONTestSuite files, through json::parse, the stream reader and the push parser; on accept the value must equal the judge's value: structure, names, first "
+                "duplicate wins, strings as scalar sequences, integers exactly with int64/uint64 kind, decimals as the correctly rounded double (glibc strtod), out-of-range numbers digit-for-digit as bigint/bigdec. ASan+UBSan.",
+     level_note="Texts containing \\u escapes that do not denote a Unicode scalar value (unpaired surrogates) and texts starting with a BOM/NUL (encoding detection) are not judged (DESIGN §3). wchar_t input is exercised by C01. "
+                "Exhaustive: exhaustive=true for the token-alphabet space only.",
+     technique="runtime monitoring: in-process differential monitor against an independent RFC 8259 recogniser over a bounded-exhaustive token space plus generated/mutated documents, ASan/UBSan",
+     rule="exhaustive stage: all 10 172 526 strings of <= 5 alphabet symbols x 4 configurations; generative stage: foreign-written / mutated / JSONTestSuite texts; distinct = distinct texts; every text is non-trivial (the empty text once)",
+     assumptions=["independent recogniser drivers/common/rfc8259.hpp", "glibc strtod is correctly rounded"],
+     stages=[dict(name="exhaustive", driver="c02_parser", flagset="asan", quick=10172526, thorough=254313151, args_quick=["--mode", "exhaustive", "--L", "5"], args_thorough=["--mode", "exhaustive", "--L", "6"]),
+             dict(name="generative", driver="c02_parser", flagset="asan", quick=400000, thorough=20000000)])
+
 prop("C03", level="exploration",
      level_text="Differential monitor: each generated input (valid, mutated, truncated; JSON text and CBOR/MessagePack/UBJSON/BSON bytes) is decoded through the reference delivery "
                 "(whole buffer, push visitor) and through stream sources of every/any chunk size, forward-iterator sources, the incremental parser at every single split point, uniform and random "
